@@ -319,9 +319,11 @@ impl TypeErr {
     #[verifier::external_body]
     pub fn new(position: Position, msg: &str) -> TypeErr { unimplemented!() }
 }
+/// the Name a type annotation denotes (Name::try_from(&AST), iterator code): a function of the annotation
+pub uninterp spec fn name_of(a: AST) -> Name;
 impl Name {
     #[verifier::external_body]
-    pub fn try_from(a: &Box<AST>) -> (r: TypeResult<Name>) ensures r is Err ==> r->Err_0@.len() >= 1 { unimplemented!() }
+    pub fn try_from(a: &Box<AST>) -> (r: TypeResult<Name>) ensures r matches Ok(n) ==> n == name_of(**a), r is Err ==> r->Err_0@.len() >= 1 { unimplemented!() }
 }
 impl ConstrBuilder {
     #[verifier::external_body]
